@@ -233,6 +233,16 @@ def check_props(prop_id):
     return res
 
 
+def _big_stack():
+    # extracted list functions are not tail recursive: give the driver a large stack
+    import resource
+    soft, hard = resource.getrlimit(resource.RLIMIT_STACK)
+    try:
+        resource.setrlimit(resource.RLIMIT_STACK, (hard, hard))
+    except Exception:
+        pass
+
+
 def run_models(cases, jobs=None):
     """cases: list of (model_id, [ints]).  Returns list of [ints] from the extracted models."""
     if not cases:
@@ -243,7 +253,8 @@ def run_models(cases, jobs=None):
     procs = []
     for sh in shards:
         data = "\n".join("%d %s" % (cases[i][0], " ".join(map(str, cases[i][1]))) for i in sh) + "\n"
-        p = subprocess.Popen([DRIVER], stdin=subprocess.PIPE, stdout=subprocess.PIPE)
+        p = subprocess.Popen([DRIVER], stdin=subprocess.PIPE, stdout=subprocess.PIPE,
+                             preexec_fn=_big_stack)
         procs.append((sh, p, data))
     # feed concurrently
     from concurrent.futures import ThreadPoolExecutor
@@ -389,6 +400,13 @@ class Report:
         self.assumptions = []
         self._distinct = set()
         self.sections = {}
+
+    def lap(self, name):
+        """record the wall time since the previous lap under coverage['phase_s']"""
+        now = time.time()
+        last = getattr(self, "_lap", self.t0)
+        self.coverage.setdefault("phase_s", {})[name] = round(now - last, 1)
+        self._lap = now
 
     def note(self, key, value):
         self.coverage[key] = value
